@@ -22,7 +22,7 @@ import sympy as sp
 
 from ..core import norm, calls_in, AnalysisError
 from ..symx import SymEval, SymObj, PyStub, Path, Opaque, WouldRaise, module_aliases, symarray, is_zero, equal, arr, is_arr, S
-from .. import apicompat
+from .. import apicompat, dtypeflow, lints
 from . import c04
 
 MIL = 'atomman/tools/miller.py'
@@ -72,10 +72,10 @@ def map34(ctx):
                 return bool([p for p in SymEval(module_aliases(ctx.mod(MIL))).run_fn(ctx.fn(MIL, f43), [arr(v)], {}) if p.done == 'return'])
             except WouldRaise:
                 return False
-        verdicts = [(v, accepted(v)) for v in ([1, 2, 3, 5], [[1, 2, -3, 5], [1, 1, 1, 0]], [0, 0, 1, 0])] + [(v, not accepted(v)) for v in ([1, 2, -3, 5], [[1, 2, -3, 5], [2, -1, -1, 0]], [0, 0, 0, 4])]
-        ok = not any(a for v, a in verdicts[:3]) and not any(a for v, a in verdicts[3:])
-        ctx.ob('MAP34', loc + f43, '%s 4->3: indices whose first three do not sum to zero are refused (also one bad row in a batch); indices that do are accepted' % what, ok,
-               'wrongly accepted %s; wrongly refused %s' % ([v for v, a in verdicts[:3] if a], [v for v, a in verdicts[3:] if a]), node=ctx.fn(MIL, f43))
+        verdicts = [(v, accepted(v)) for v in ([1, 2, 3, 5], [[1, 2, -3, 5], [1, 1, 1, 0]], [[1, 0, 0, 0], [-1, 0, 0, 0]], [0, 0, 1, 0])] + [(v, not accepted(v)) for v in ([1, 2, -3, 5], [[1, 2, -3, 5], [2, -1, -1, 0]], [0, 0, 0, 4])]
+        ok = not any(a for v, a in verdicts[:4]) and not any(a for v, a in verdicts[4:])
+        ctx.ob('MAP34', loc + f43, '%s 4->3: indices whose first three do not sum to zero are refused (also one bad row in a batch, and rows whose violations cancel over the batch); indices that do are accepted' % what, ok,
+               'wrongly accepted %s; wrongly refused %s' % ([v for v, a in verdicts[:4] if a], [v for v, a in verdicts[4:] if a]), node=ctx.fn(MIL, f43))
         for fn_, bad in ((f34, symarray('b', (4,))), (f43, symarray('b', (3,)))):
             paths = SymEval(module_aliases(ctx.mod(MIL))).run_fn(ctx.fn(MIL, fn_), [bad], {})
             ctx.ob('MAP34', loc + fn_, 'a wrong number of indices is refused', not [p for p in paths if p.done == 'return'], node=ctx.fn(MIL, fn_), key='shape ' + fn_)
@@ -368,9 +368,27 @@ def centering(ctx):
     c04.centering(ctx)
 
 
+def index_types(ctx):
+    """the per-plane arithmetic (lcm, products of indices, sign) is exact only in wide integers: whatever container and element type the caller used (int8, unsigned,
+    float whole numbers, lists), the indices handed to the per-plane helper are of the default integer type on every path"""
+    fn = ctx.fn(MIL, 'plane_crystal_to_cartesian')
+    fl = dtypeflow.DtypeFlow(fn)
+    sites = [c for c in calls_in(fn) if norm(c.func) in ('np.apply_along_axis', 'numpy.apply_along_axis') and len(c.args) >= 3]
+    ctx.need(len(sites) >= 1, 'plane_crystal_to_cartesian no longer applies a per-plane helper along the last axis')
+    for c in sites:
+        a = c.args[2]
+        t = fl.uses.get(id(a)) if isinstance(a, ast.Name) else fl.ev(a, fl.final)
+        ctx.need(t is not None, 'element type of %s at the per-plane call is not decided' % norm(a))
+        other = [x for x in t if x != dtypeflow.INT and x not in dtypeflow.undecided(t)]
+        ctx.need(other or not dtypeflow.undecided(t), 'element type of %s at the per-plane call is not decided: %s' % (norm(a), dtypeflow.describe(t)))
+        ctx.ob('INDEX-TYPES', MIL + '::plane_crystal_to_cartesian', 'the indices given to the per-plane helper are default (wide) integers whatever element type the caller passed', not other,
+               'may be: ' + dtypeflow.describe(t), node=c, key='index types plane normal')
+    lints.fresh_results(ctx, 'FRESH-RESULTS', MIL, floor=11)
+
+
 def run(ctx):
     ctx.explanation = ('C16: the index conversion functions are evaluated on symbolic indices and compared with their defining linear maps; the plane-normal table is evaluated for '
                        'all 26 zero/sign patterns and shown to give the +g direction by exact rational algebra; the centering tables are checked as exact rational matrices; '
                        'reduce/all_indices/fromstring are evaluated on model inputs; family predicates are evaluated on the equality pattern of each constructor\'s generic member. '
                        'Not decided: tolerance behaviour near coincident parameters.')
-    ctx.run_rules([map34, plane_normal, centering, util, family])
+    ctx.run_rules([map34, plane_normal, centering, util, family, index_types])
